@@ -35,6 +35,9 @@ conditions that are visible in the shape of the pool allocator:
      from which the stack subscript is summed contains the position variable of
      the temporary whatever the shape of the simplified offset (evaluated for a
      sum and for a single term).
+ R8  the extent of a ranged dimension is ``upper - lower + 1``: every ``Sum`` built
+     from the bounds of one dimension in the stack / pool transformations is, as
+     a linear normal form over the constructor tree, exactly that.
 Not decided: behavioural equivalence of hoisted / pool-allocated code, the size
 arithmetic of each array (dimension products, ``C_SIZEOF``), and the other
 stack transformations (raw stack, Fortran-pointer and direct-index variants).
@@ -374,6 +377,30 @@ def run_r67(ctx):
                           f'replaced by the declared bound and the section is mapped onto the wrong part of the stack')
     else:
         ctx.judge('R6', 'no truthiness test of section bounds', facts={'functions': nfun})
+    from sa.linform import lin_sym, show, NotLinear
+    ctx.rule('R8', 'loki/transformations/temporaries: Sum((X.upper, Product((-1, X.lower)), 1)) -- the extent of a dimension -- is upper - lower + 1')
+    n8 = 0
+    for mod in m.all_repo_modules(packages=('loki/transformations/temporaries',)):
+        for c in ast.walk(mod.tree):
+            if isinstance(c, ast.Call) and X.call_name_of(c) == 'Sum' and c.args and isinstance(c.args[0], (ast.Tuple, ast.List)):
+                try:
+                    got = lin_sym(c)
+                except NotLinear:
+                    continue
+                ups = [k for k in got if isinstance(k, str) and k.endswith(('.upper', '_upper'))]
+                lows = [k for k in got if isinstance(k, str) and k.endswith(('.lower', '_lower'))]
+                others = [k for k in got if k != 1 and k not in ups + lows]
+                if len(ups) != 1 or len(lows) != 1 or others or ups[0].rsplit('upper', 1)[0] != lows[0].rsplit('lower', 1)[0]:
+                    continue            # not the extent of one dimension
+                n8 += 1
+                inst = f'{mod.relpath}:{show(got)}'
+                if got[ups[0]] == 1 and got[lows[0]] == -1 and got.get(1, 0) == 1:
+                    ctx.judge('R8', inst, nontrivial=False)
+                else:
+                    ctx.violation('R8', f'extent:{show(got)}', f'{mod.relpath}:{c.lineno}',
+                                  f'`{ast.unparse(c)[:90]}` is `{show(got)}`: the number of elements of a dimension lower:upper is upper - lower + 1; '
+                                  f'anything smaller reserves too little storage for the temporary', instance=inst)
+    ctx.floor('R8', 'extent expressions', n8, 4)
     D = m.get_class('loki/transformations/temporaries/stack_allocator.py', 'DirectIdxStackTransformation')
     f = D.function('_map_temporary_array')
     if f is None:
@@ -412,6 +439,8 @@ def run_r67(ctx):
 
 
 MUTANTS = [
+    Mutant('extent-without-plus-one', FILE, "                dims += (Sum((d.upper, Product((-1, d.lower)), 1)),)", "                dims += (Sum((d.upper, Product((-1, d.lower)))),)",
+           expect=('R8', 'extent')),
     Mutant('section-bound-by-truthiness', 'loki/transformations/temporaries/stack_allocator.py',
            "                        d_lower = d.lower if d.lower is not None else s_lower\n", "                        d_lower = d.lower or s_lower\n",
            expect=('R6', 'bound-truthiness')),
